@@ -181,6 +181,9 @@ func genCase(t *rapid.T) Case {
 		c.Extra = rapid.SampledFrom([]int{0, 0, 1, 2}).Draw(t, "extra")
 		lim = 480
 	}
+	if c.Class == "hair-segment-far-point" {
+		lim -= 62 // ordinates of up to 62 bits: their squares (fourth powers) must stay finite
+	}
 	// a small configuration far from the origin (exact integer translation): the distance
 	// is that of the small shape, the coordinate scale that of the offset
 	small := true
@@ -253,6 +256,35 @@ func genCase0(t *rapid.T) Case {
 		cl, p := genSegSeg(t, false)
 		return Case{Fn: fn, Class: cl, P: p}
 	case "pt-seg3", "pt-seg2", "perp2":
+		// a segment of a few units and a point 2^54..2^61 units away: the segment is shorter
+		// than the spacing of the doubles at the point's distance, so vectors taken from the
+		// point to its two ends round to the same value
+		if rapid.IntRange(0, 7).Draw(t, "hair") == 5 {
+			sm := func(l string) int64 { return rapid.Int64Range(-3, 3).Draw(t, l) }
+			a := [3]int64{sm("hax"), sm("hay"), sm("haz")}
+			b := [3]int64{sm("hbx"), sm("hby"), sm("hbz")}
+			if fn != "pt-seg3" {
+				a[2], b[2] = 0, 0
+			}
+			if a == b {
+				b[0]++
+			}
+			far := func(l string) int64 {
+				v := rapid.Int64Range(1<<53, 1<<54).Draw(t, l) << uint(rapid.IntRange(0, 7).Draw(t, l+"sh"))
+				if rapid.Bool().Draw(t, l+"neg") {
+					v = -v
+				}
+				return v
+			}
+			pnt := [3]int64{far("hpx"), far("hpy"), 0}
+			if rapid.Bool().Draw(t, "hponaxis") {
+				pnt[1] = sm("hpy0")
+			}
+			if fn == "pt-seg3" {
+				pnt[2] = far("hpz")
+			}
+			return Case{Fn: fn, Class: "hair-segment-far-point", P: [][3]int64{pnt, a, b}}
+		}
 		cl, p := genSegSeg(t, fn == "pt-seg3")
 		// point = p[2] (endpoint of the other segment: on, before, after, beside the segment)
 		if fn == "perp2" && p[0] == p[1] {
